@@ -477,6 +477,12 @@ func TestVerifE3HTTP(t *testing.T) {
 				}
 				for k := 3 + g.r.Intn(6); k > 0; k-- {
 					tn, cn := topics[g.r.Intn(2)], chans[g.r.Intn(2)]
+					if g.r.Intn(6) == 0 {
+						cn = g.channel() // sometimes an invalid / unusual channel name on an existing topic
+					}
+					if g.r.Intn(12) == 0 {
+						tn = g.topic()
+					}
 					switch g.r.Intn(12) {
 					case 0:
 						httpOp(v, "POST", "/topic/create", "topic="+url.QueryEscape(tn), 0, nil, 1)
